@@ -216,9 +216,26 @@ def run_case(case):
     # ---- D phase
     L = [lik_d(np.asarray(m.D, float), Un, Vn, ly, lx)]
     for it in range(1, K + 1):
+        Dprev = np.array(m.D, float)
         out = m.e_step_d(X=X, y=y, latent_x=lx, latent_y=ly, n_acc=n_acc, f_acc=f_acc, **kw)
         m.m_step_d([out])
         c.transitions += 2
+        A1, A2 = np.zeros(C * D), np.zeros(C * D)
+        for k in classes:
+            idx = [i for i in range(len(y)) if y[i] == k]
+            nn = sum(nh[i] for i in idx)
+            ff = np.zeros_like(mvec)
+            for j, i in enumerate(idx):
+                ff += fh[i] - nh[i] * (mvec + Vn @ np.asarray(ly[k], float) + Un @ np.asarray(lx[k], float)[:, j])
+            prec = 1.0 + Dprev * Dprev * nn / var
+            zz = Dprev * ff / var / prec
+            A1 += nn * (1.0 / prec + zz * zz)
+            A2 += ff * zz
+        with np.errstate(all="ignore"):
+            Dref = A2 / A1
+        ok_rows = np.isfinite(Dref)
+        c.close(np.asarray(m.D, float)[ok_rows], Dref[ok_rows], "d_pair_definition", f"D after pair {it} vs the exact EM pair from the definition", tags, rtol=1e-7,
+                scale=float(np.abs(Dref[ok_rows]).max()) + 1e-9 if ok_rows.any() else 1.0, kappa=1e5)
         L.append(lik_d(np.asarray(m.D, float), Un, Vn, ly, lx))
         c.check(L[-1] >= L[-2] - 1e-9 * max(1.0, abs(L[-2])), "d_phase", f"D-phase marginal likelihood fell from {L[-2]!r} to {L[-1]!r} at pair {it}", tags)
         shapes(f"D phase pair {it}")
